@@ -24,13 +24,13 @@ def obs_invariants():
 
 # property -> what is run.  gated/free: (families, episodes quick, episodes thorough)
 PLAN = {
-    'C01': {'gated': (['basic', 'ctl', 'cancel', 'pool', 'batch', 'barrier'], 64, 750), 'free': (['basic', 'ctl', 'pool'], 64, 1200), 'model': ['MC_core']},
+    'C01': {'gated': (['basic', 'ctl', 'cancel', 'pool', 'batch', 'barrier', 'tune'], 64, 750), 'free': (['basic', 'ctl', 'pool'], 64, 1200), 'model': ['MC_core']},
     'C02': {'gated': (['ctl', 'pool', 'basic', 'barrier', 'bind2'], 80, 750), 'free': (['ctl', 'pool'], 64, 1200), 'model': ['MC_core']},
-    'C03': {'gated': (['basic', 'ctl', 'cancel', 'pool', 'barrier', 'batch'], 64, 750), 'free': (['basic', 'ctl', 'pool', 'cancel'], 64, 1200), 'model': ['MC_core']},
+    'C03': {'gated': (['basic', 'ctl', 'cancel', 'pool', 'barrier', 'batch', 'tune'], 64, 750), 'free': (['basic', 'ctl', 'pool', 'cancel'], 64, 1200), 'model': ['MC_core']},
     'C05': {'gated': (['handle', 'basic', 'cancel', 'batch'], 64, 750), 'free': (['handle', 'batch'], 64, 1200), 'model': ['MC_core']},
     'C06': {'gated': (['barrier', 'ctl', 'cancel'], 64, 750), 'free': (['barrier', 'ctl'], 64, 1200), 'model': ['MC_core']},
     'C07': {'gated': (['handle', 'basic', 'batch'], 64, 750), 'free': (['handle', 'batch'], 64, 1200), 'model': []},
-    'C08': {'gated': (['batch'], 64, 750), 'free': (['batch'], 96, 2400), 'model': []},
+    'C08': {'gated': (['batch'], 160, 1500), 'free': (['batch'], 96, 2400), 'model': []},
     'C09': {'gated': (['ctl', 'barrier'], 64, 750), 'free': (['ctl'], 64, 1200), 'model': ['MC_core']},
     'C10': {'gated': (['cancel', 'batch'], 64, 750), 'free': (['cancel'], 64, 1200), 'model': ['MC_core']},
     'C04': {'gated': (['basic', 'multi', 'barrier', 'cancel'], 64, 750), 'free': (['basic'], 48, 800), 'model': []},
@@ -41,7 +41,7 @@ PLAN = {
     'C15': {'gated': (['multi'], 80, 750), 'free': (['multi'], 32, 600), 'model': []},
     'C16': {'gated': (['basic', 'handle', 'cancel', 'batch'], 64, 750), 'free': (['basic', 'handle'], 96, 2400), 'model': ['MC_core']},
     'C17': {'gated': (['basic', 'multi', 'cancel', 'ctl'], 64, 750), 'free': (['basic', 'multi'], 64, 1200), 'model': []},
-    'C18': {'gated': (['pool', 'ctl'], 64, 750), 'free': (['pool'], 64, 1200), 'model': []},
+    'C18': {'gated': (['pool', 'ctl', 'tune'], 64, 750), 'free': (['pool'], 64, 1200), 'model': []},
 }
 
 
@@ -214,7 +214,7 @@ def replay_prog(prog, choices):
     return p
 
 
-RACE_FAMS = ['basic', 'ctl', 'cancel', 'batch', 'handle', 'pool', 'multi', 'dist', 'adapter', 'life', 'barrier']
+RACE_FAMS = ['tune', 'bind2', 'basic', 'ctl', 'cancel', 'batch', 'handle', 'pool', 'multi', 'dist', 'adapter', 'life', 'barrier']
 
 
 def parse_races(output):
@@ -403,7 +403,7 @@ def check_property(pid, tier, seed):
             for li, lab in enumerate(labels):
                 hp = json.loads(json.dumps(e['prog']))
                 hp['id'] = '%sh%d' % (e['prog']['id'], li)
-                hp['sched'] = {'kind': 'hold', 'label': lab, 'nth': rng.choice([0, 0, 0, 1, 2]), 'seed': rng.randrange(1 << 30)}
+                hp['sched'] = {'kind': 'hold', 'label': lab, 'nth': 0 if li % 4 else rng.choice([0, 1, 2]), 'seed': rng.randrange(1 << 30)}
                 holds.append(hp)
         cap = 1400 if tier == 'quick' else 24000
         if len(holds) > cap:
@@ -425,6 +425,9 @@ def check_property(pid, tier, seed):
         feps, fcrashes = vlib.run_episodes(binary, free, scratch, gomaxprocs=0, tag='f')
         mark('free episodes done')
         all_eps = eps + feps
+        for c in crashes + fcrashes:
+            all_eps.append({'prog': c['prog'], 'events': [], 'crash': crash_class(c['output']), 'crash_output': c['output'], 'header': {'ep': c['prog']['id']}, 'end': {'result': 'crash'}})
+
         def run_codec(tag):
             # payload fidelity: generated values of many Go types through the four adapter-backed bind methods
             import subprocess
@@ -575,6 +578,11 @@ def main():
         return check_property(a.prop, a.tier, seed)
     except Inconclusive as ex:
         print('INCONCLUSIVE %s' % str(ex)[:4000], flush=True)
+        return 2
+    except Exception:
+        # a failure of the machinery itself is never a verdict
+        import traceback
+        print('INCONCLUSIVE internal error of the check:\n' + traceback.format_exc()[-3000:], flush=True)
         return 2
 
 
